@@ -8,6 +8,12 @@ init API, and the object model (EbObject.h) makes the obligations local:
   C16.RAWNULL    the result of every raw malloc/calloc in that code is NULL-tested before it is dereferenced
   C16.DCTORFIRST in every constructor the destructor slot is set before the first operation that can fail (otherwise
                  EB_NEW's unwinding releases nothing that was already allocated)
+  C16.TEARDOWN   the shutdown signalling in svt_av1_enc_deinit depends only on the handle existing, not on how far init got
+  C16.CONTAINER  a structure that the constructor allocates *without zeroing it* (EB_MALLOC / EB_MALLOC_ARRAY ...) and through
+                 which the destructor releases or tests sub-members has those sub-members written before the next operation
+                 that can fail - otherwise a failure in between makes the unwinding free / branch on uninitialised bytes
+  C16.ELEM2D     rows of a two-level allocation (EB_*_2D: pointer array first, block second) are NULL when the second
+                 allocation failed: a destructor dereference through a row is dominated by a test of row 0 (or of that row)
   C16.DCTORSAFE  in every destructor, a dereference *through* a pointer member that the constructor allocates is dominated
                  by a NULL test of that member (the release macros test their own argument, not sub-expressions of it)
 """
@@ -283,6 +289,15 @@ def run(P, rep, tier):
             if e is not None and strip(e) and strip(e)[0] == 'v' and strip(e)[2].startswith('p'):
                 objs.add(ev['n'])
         objs.add(d.params[0][0] if d.params else 'p')
+        # objects reached through the parameter: `ctx = (Ctx *)thread_context_ptr->priv`
+        ch = True
+        while ch:
+            ch = False
+            for ev in d.events(('decl',)):
+                e = ev.get('e')
+                r = root_of(strip(e)) if e is not None else None
+                if r is not None and r[1] in objs and ev['n'] not in objs and strip(e)[0] in ('m', 'v'):
+                    objs.add(ev['n']); ch = True
         taint = []
         m2f = {}
         for o in objs:
@@ -321,6 +336,90 @@ def run(P, rep, tier):
             else:
                 rep.ob('C16.DCTORSAFE', '%s/member:%s' % (dname, lf), True, d.loc(), 'no untested dereference through %s' % lf, nontrivial=used)
     rep.floor('C16.DCTORSAFE', 120)
+
+    # ---------------- TEARDOWN: a session whose init failed half-way is torn down like any other: the shutdown signalling of
+    # svt_av1_enc_deinit may depend on the handle existing, not on how far init got (kernels created before the failing step are
+    # already running and must be told to quit, or deinit_handle blocks in the join)
+    dn = P.fn('svt_av1_enc_deinit')
+    nshut = 0
+    for ev, n in dn.calls(('svt_shutdown_process',)):
+        nshut += 1
+        conds = [strip(c) for k, c, l in dn.ctl_chain(ev) if c is not None and k in ('if', 'else')]
+        extra = [c for c in conds if any(x[0] == 'm' for x in subexprs(c))]
+        res = last_field(strip(ev['e'][2][0])) or pstr(strip(ev['e'][2][0]))
+        rep.ob('C16.TEARDOWN', 'svt_av1_enc_deinit/%s' % res.split('.')[-1], not extra, dn.loc(ev),
+               ('%s is shut down whenever the handle exists' % res.split('.')[-1]) if not extra else
+               ('the shutdown of %s depends on %s: after a failure late in svt_av1_enc_init the kernels that were already started are never told to quit and teardown hangs' % (res.split('.')[-1], pstr(extra[0])[:60])))
+    rep.floor('C16.TEARDOWN', 10)
+
+    # ---------------- CONTAINER / ELEM2D
+    NONZERO = ('EB_MALLOC', 'EB_MALLOC_ARRAY', 'EB_MALLOC_ALIGNED', 'EB_MALLOC_ALIGNED_ARRAY', 'EB_NO_THROW_MALLOC', 'EB_NO_THROW_MALLOC_ARRAY', 'raw:malloc')
+    TWO_D = ('EB_CALLOC_2D', 'EB_MALLOC_2D')
+    ncont = n2d = 0
+    for f, (dev, dname, rec) in sorted(ctors.items(), key=lambda kv: (kv[0].file, kv[0].line)):
+        ds = P.by_name.get(dname, [])
+        if not ds or ds[0].nocfg:
+            continue
+        d = ds[0]
+        sites = [(ev, lf, mac) for ev, lf, kind, lvl, mac, t in alloc_sites(f) if lf and lvl == 'top']
+        fallible = sorted({ev.get('l', 0) for ev, lf, kind, lvl, mac, t in alloc_sites(f)} |
+                          {ev.get('l', 0) for ev, n in f.calls() if n and any(g in cf for g in P.resolve(n, f))})
+        for aev, M, mac in sites:
+            if mac in NONZERO:
+                # sub-members the destructor touches through M
+                subs = {}
+                for ev in d.events():
+                    e = ev.get('e')
+                    if e is None:
+                        continue
+                    for x in subexprs(e):
+                        if x[0] == 'm' and x[1] != M and any(y[0] == 'm' and y[1] == M for y in subexprs(x[3])):
+                            subs.setdefault(x[1], ev)
+                if not subs:
+                    continue
+                la = aev.get('l', 0)
+                zeroed = [ev for ev, n in f.calls(('memset', 'EB_MEMSET', '__builtin_memset')) if any(y[0] == 'm' and y[1] == M for y in subexprs(ev['e'][2][0])) and ev.get('l', 0) >= la]
+                lz = min([ev.get('l', 0) for ev in zeroed], default=None)
+                for x, dev2 in sorted(subs.items()):
+                    firsts = [ev.get('l', 0) for ev in f.events(('st',)) if ev['e'][0] == 'a' and last_field(strip(ev['e'][2])) == x and
+                              any(y[0] == 'm' and y[1] == M for y in subexprs(ev['e'][2])) and ev.get('l', 0) >= la]
+                    # an allocation macro storing into the sub-member is itself the first write
+                    lx = min(firsts, default=None)
+                    if lz is not None and (lx is None or lz < lx):
+                        lx = lz
+                    between = [l for l in fallible if la < l and (lx is None or l < lx)]
+                    ncont += 1
+                    ok = not between
+                    rep.ob('C16.CONTAINER', '%s/%s->%s' % (f.name, M.split('.', 1)[1], x.split('.', 1)[1]), ok, f.loc(aev),
+                           ('%s is not zeroed by %s, and %s is written (line %s) before the next operation that can fail' % (M.split('.', 1)[1], mac, x.split('.', 1)[1], lx)) if ok else
+                           ('%s is allocated by %s (not zeroed); %s uses %s->%s (line %s), which is first written at line %s, after %d operation(s) that can fail (first at line %d): if one of them fails the destructor frees or tests uninitialised memory' %
+                            (M.split('.', 1)[1], mac, dname, M.split('.', 1)[1], x.split('.', 1)[1], dev2.get('l'), lx, len(between), between[0])))
+            if mac in TWO_D:
+                # aliases of the member in the destructor
+                al = {ev['n'] for ev in d.events(('decl',)) if ev.get('e') is not None and last_field(strip(ev['e'])) == M and strip(ev['e'])[0] == 'm'}
+                for ev in d.events():
+                    e = ev.get('e')
+                    if e is None:
+                        continue
+                    hit = None
+                    for x in subexprs(e):
+                        if x[0] == 'm' and x[2]:
+                            b = strip(x[3])
+                            if b[0] == 'i' and ((strip(b[1])[0] == 'v' and strip(b[1])[1] in al) or last_field(strip(b[1])) == M):
+                                hit = b
+                                break
+                    if hit is None:
+                        continue
+                    n2d += 1
+                    base = pstr(strip(hit[1]))
+                    conds = [pstr(strip(c)) for k, c, l in d.ctl_chain(ev) if c is not None and k in ('if', 'for', 'while')]
+                    ok = any((base + '[0]') in c or pstr(hit) in c for c in conds)
+                    rep.ob('C16.ELEM2D', '%s/%s' % (dname, M.split('.', 1)[1]), ok, d.loc(ev),
+                           ('rows of %s are dereferenced only after row 0 was tested' % M.split('.', 1)[1]) if ok else
+                           ('%s is a two-level allocation (%s): when its second allocation fails the rows are NULL / unset, and %s dereferences %s-> without testing row 0' % (M.split('.', 1)[1], mac, dname, pstr(hit))))
+                    break
+    rep.floor('C16.CONTAINER', 5)
+    rep.floor('C16.ELEM2D', 1)
 
     # ---------------- UNDEF: the unwinding must not release a cell that was never written.
     # An element-level allocation  B[k] = alloc  into an array B that the *same* function obtained from a non-zeroing
